@@ -45,6 +45,8 @@ CHECKS = {
         "legs": [
             {"test": "TestC11", "quick": {"checks": 20000, "timeout": "10m"},
              "thorough": {"checks": 200000, "shards": 8, "timeout": "60m"}},
+            {"test": "TestC11_Concurrent", "quick": {"checks": 300, "timeout": "10m"},
+             "thorough": {"checks": 5000, "shards": 4, "timeout": "60m"}},
             {"test": "FuzzC11", "thorough": {"fuzz": "120s", "timeout": "10m"}},
         ],
     },
@@ -90,6 +92,14 @@ CHECKS = {
         "assumptions": EXPLORATION_ASSUMPTIONS + ["panic(nil) reaches recover() as *runtime.PanicNilError because the test binary's main module is go 1.23"],
         "legs": [
             {"test": "TestC16", "quick": {"checks": 400, "timeout": "15m"},
+             "thorough": {"checks": 5000, "shards": 4, "timeout": "60m"}},
+        ],
+    },
+    "C09": {
+        "level": "exploration",
+        "assumptions": EXPLORATION_ASSUMPTIONS + ["every issued line is unique (sender id and index are part of it), so loss, duplication, alteration and reordering are all visible in the transcript"],
+        "legs": [
+            {"test": "TestC09", "quick": {"checks": 300, "timeout": "15m"},
              "thorough": {"checks": 5000, "shards": 4, "timeout": "60m"}},
         ],
     },
